@@ -829,3 +829,25 @@ func JumpLimitExpr(op string, prefix, n int) *Expr {
 	}
 	return &Expr{K: op, A: left, B: e}
 }
+
+// ManyLocalsProg declares n variables (optionally inside a block) and reads
+// and assigns the last ones, so that slot numbers and the final pop count
+// need multi-byte operands from 241 on.
+func ManyLocalsProg(n int, inBlock bool) *Prog {
+	var body []*Stmt
+	name := func(i int) string { return "v" + strconv.Itoa(i) }
+	for i := 0; i < n; i++ {
+		body = append(body, &Stmt{K: "var", Name: name(i), E: &Expr{K: "int", T: strconv.Itoa(i)}})
+	}
+	if n >= 2 {
+		body = append(body,
+			&Stmt{K: "print", E: &Expr{K: "bin", T: "+", A: &Expr{K: "id", T: name(n - 1)}, B: &Expr{K: "id", T: name(n - 2)}}},
+			&Stmt{K: "eval", E: &Expr{K: "asg", T: name(n - 1), A: &Expr{K: "bin", T: "*", A: &Expr{K: "id", T: name(0)}, B: &Expr{K: "int", T: "5"}}}},
+			&Stmt{K: "print", E: &Expr{K: "or", A: &Expr{K: "id", T: name(n - 1)}, B: &Expr{K: "id", T: name(n / 2)}}},
+		)
+	}
+	if inBlock {
+		return &Prog{Stmts: []*Stmt{{K: "def", Name: "t", Body: body}, {K: "print", E: &Expr{K: "int", T: "7"}}}}
+	}
+	return &Prog{Stmts: body}
+}
